@@ -242,6 +242,7 @@ pub fn run_ops(scanner: &Scanner, input: &str, ops: &[Value], with_positions: bo
         } else {
             let mut it = scanner.find_iter(input);
             let mut first = true;
+            let mut last_peek_ends: Vec<usize> = Vec::new();
             for op in ops {
                 let name = op[0].as_str().unwrap();
                 let arg = op.get(1).and_then(|a| a.as_u64()).unwrap_or(0) as usize;
@@ -256,22 +257,28 @@ pub fn run_ops(scanner: &Scanner, input: &str, ops: &[Value], with_positions: bo
                     },
                     "peek" => match it.peek_n(arg) {
                         PeekResult::Matches(ms) => {
+                            last_peek_ends = ms.iter().map(|m| m.end()).collect();
                             let mut v = vec![1, ms.len() as u64];
                             ms.iter().for_each(|m| v.extend(enc_match(m)));
                             v
                         }
                         PeekResult::MatchesReachedEnd(ms) => {
+                            last_peek_ends = ms.iter().map(|m| m.end()).collect();
                             let mut v = vec![2, ms.len() as u64];
                             ms.iter().for_each(|m| v.extend(enc_match(m)));
                             v
                         }
                         PeekResult::MatchesReachedModeSwitch((ms, mode)) => {
+                            last_peek_ends = ms.iter().map(|m| m.end()).collect();
                             let mut v = vec![3, ms.len() as u64];
                             ms.iter().for_each(|m| v.extend(enc_match(m)));
                             v.push(mode as u64);
                             v
                         }
-                        PeekResult::NotFound => vec![4],
+                        PeekResult::NotFound => {
+                            last_peek_ends.clear();
+                            vec![4]
+                        }
                     },
                     "set_offset" => {
                         if first {
@@ -283,6 +290,11 @@ pub fn run_ops(scanner: &Scanner, input: &str, ops: &[Value], with_positions: bo
                         vec![]
                     }
                     "advance_to" => vec![it.advance_to(arg) as u64],
+                    "advance_to_peeked" => {
+                        // advance to the end of the arg-th match (modulo) of the last peek result
+                        let p = if last_peek_ends.is_empty() { 0 } else { last_peek_ends[arg % last_peek_ends.len()] };
+                        vec![it.advance_to(p) as u64]
+                    }
                     "set_mode" => {
                         it.set_mode(arg);
                         vec![]
@@ -573,6 +585,119 @@ fn job_class_sweep(job: &Value, leaf_cache: &LeafCache) -> Value {
     json!({"ranges": out})
 }
 
+/// Several iterators over several inputs created from one or two scanners (optionally through
+/// the cache), operated in an interleaved order; outputs are collected per iterator.
+fn job_world(job: &Value) -> Value {
+    let modes = modes_from_json(&job["modes"]);
+    let cached = job.get("cached").and_then(|c| c.as_bool()).unwrap_or(false);
+    let nscanners = job.get("nscanners").and_then(|c| c.as_u64()).unwrap_or(1) as usize;
+    let mut scanners: Vec<Scanner> = Vec::new();
+    for _ in 0..nscanners {
+        match build(&modes, cached) {
+            (Some(s), _, _) => scanners.push(s),
+            (None, class, msg) => return json!({"build": class, "error": msg}),
+        }
+    }
+    let inputs: Vec<String> = job["inputs"].as_array().unwrap().iter().map(|s| s.as_str().unwrap().to_string()).collect();
+    // steps: ["new", iter_id, scanner_idx, input_idx] | ["op", iter_id, opname, arg?] | ["drop", iter_id] | ["scanner_set_mode", scanner_idx, mode]
+    let mut outs: BTreeMap<u64, Vec<Vec<u64>>> = BTreeMap::new();
+    let r = catch_unwind(AssertUnwindSafe(|| {
+        let mut iters: BTreeMap<u64, (scnr::FindMatches, bool)> = BTreeMap::new();
+        for step in job["steps"].as_array().unwrap() {
+            match step[0].as_str().unwrap() {
+                "new" => {
+                    let id = step[1].as_u64().unwrap();
+                    let sc = &scanners[step[2].as_u64().unwrap() as usize];
+                    let inp: &str = &inputs[step[3].as_u64().unwrap() as usize];
+                    iters.insert(id, (sc.find_iter(inp), false));
+                    outs.entry(id).or_default();
+                }
+                "drop" => {
+                    iters.remove(&step[1].as_u64().unwrap());
+                }
+                "scanner_set_mode" => {
+                    scanners[step[1].as_u64().unwrap() as usize].set_mode(step[2].as_u64().unwrap() as usize);
+                }
+                "op" => {
+                    let id = step[1].as_u64().unwrap();
+                    let Some((it, dead)) = iters.get_mut(&id) else { continue };
+                    if *dead {
+                        continue;
+                    }
+                    let name = step[2].as_str().unwrap();
+                    let arg = step.get(3).and_then(|a| a.as_u64()).unwrap_or(0) as usize;
+                    let r = catch_unwind(AssertUnwindSafe(|| match name {
+                        "next" => match it.next() {
+                            None => vec![0],
+                            Some(m) => {
+                                let mut v = vec![1];
+                                v.extend(enc_match(&m));
+                                v
+                            }
+                        },
+                        "peek" => match it.peek_n(arg) {
+                            PeekResult::Matches(ms) => {
+                                let mut v = vec![1, ms.len() as u64];
+                                ms.iter().for_each(|m| v.extend(enc_match(m)));
+                                v
+                            }
+                            PeekResult::MatchesReachedEnd(ms) => {
+                                let mut v = vec![2, ms.len() as u64];
+                                ms.iter().for_each(|m| v.extend(enc_match(m)));
+                                v
+                            }
+                            PeekResult::MatchesReachedModeSwitch((ms, mode)) => {
+                                let mut v = vec![3, ms.len() as u64];
+                                ms.iter().for_each(|m| v.extend(enc_match(m)));
+                                v.push(mode as u64);
+                                v
+                            }
+                            PeekResult::NotFound => vec![4],
+                        },
+                        "set_offset" => {
+                            scnr::FindMatches::set_offset(it, arg);
+                            vec![]
+                        }
+                        "advance_to" => vec![it.advance_to(arg) as u64],
+                        "set_mode" => {
+                            it.set_mode(arg);
+                            vec![]
+                        }
+                        "position" => {
+                            let p = PositionProvider::position(&*it, arg);
+                            vec![p.line as u64, p.column as u64]
+                        }
+                        "current_mode" => vec![it.current_mode() as u64],
+                        "offset" => vec![it.offset() as u64],
+                        other => panic!("harness: unknown op {}", other),
+                    }));
+                    match r {
+                        Ok(v) => outs.get_mut(&id).unwrap().push(v),
+                        Err(_) => {
+                            outs.get_mut(&id).unwrap().push(vec![PANIC_CODE]);
+                            *dead = true;
+                        }
+                    }
+                }
+                other => panic!("harness: unknown step {}", other),
+            }
+        }
+    }));
+    let dump = verif::dump(&scanners[0]);
+    let mut cls = Map::new();
+    let mut chars: BTreeSet<char> = BTreeSet::new();
+    for i in &inputs {
+        chars.extend(i.chars());
+    }
+    for cc in 0..dump.classes.len() as u32 {
+        let v: Vec<u32> = chars.iter().filter(|c| verif::match_class(&scanners[0], cc, **c) == Some(true)).map(|c| *c as u32).collect();
+        cls.insert(cc.to_string(), json!(v));
+    }
+    json!({"build": "ok", "outs": outs.into_iter().map(|(k, v)| json!([k, v])).collect::<Vec<_>>(),
+           "world_panic": r.is_err(), "dump": dump_to_json(&dump), "cls": cls,
+           "scanner_modes": scanners.iter().map(|s| s.current_mode()).collect::<Vec<_>>()})
+}
+
 fn job_minimize(job: &Value) -> Value {
     let d = dfa_from_json(&job["dfa"]);
     match catch_unwind(|| verif::minimize(&d)) {
@@ -625,6 +750,7 @@ fn run_job(job: &Value, leaf_cache: &LeafCache) -> Value {
         "scan" => job_scan(job, leaf_cache),
         "sweep" => job_sweep(job, leaf_cache),
         "class_sweep" => job_class_sweep(job, leaf_cache),
+        "world" => job_world(job),
         "minimize" => job_minimize(job),
         "findfrom" => job_findfrom(job),
         "nfa" => job_nfa(job),
